@@ -18,7 +18,7 @@ Definition file_in (l : list (path * node)) (p : path) : option node :=
   match assoc_path p l with Some (NFile c) => Some (NFile c) | _ => None end.
 
 Definition created (ops : list op) : list path :=
-  flat_map (fun o => match o with Create p | Write p _ => [p] | _ => [] end) ops.
+  flat_map (fun o => match o with Create p | Write p _ | Replace p _ => [p] | _ => [] end) ops.
 
 Definition owned (r : rcase) (p : path) : bool :=
   inside (r_cfg r) (r_hdr r) p || existsb (path_eqb p) (created (r_trace r)).
